@@ -65,6 +65,12 @@ class Check(object):
     def error(self, msg):
         self.errors.append(msg)
 
+    def part(self, label):
+        """context manager around one family of rules inside a property's run(): whatever goes wrong inside (an anchor that vanished, an extraction that failed, a
+        crash of the analyser, a name a failed earlier part never bound) is recorded as an analysis error of THAT part and the following parts still run -- so a
+        violation another rule can see is still reported (it takes precedence over the analysis error in the exit code)"""
+        return _Part(self, label)
+
     def sample(self, obj):
         if len(self.samples) < 40:
             self.samples.append(obj)
@@ -166,3 +172,28 @@ class Check(object):
             print("%s %s: %d rule instances (%d distinct), %d discharged, %d known finding(s), %d new violation(s), %d analysis error(s), %.2fs" % (
                 self.pid, self.tier, n_inst, distinct, cov["discharged"], len(old), len(new), len(self.errors), ev["wall_s"]))
         return code
+
+
+class _Part(object):
+    def __init__(self, chk, label):
+        self.chk, self.label = chk, label
+
+    def __enter__(self):
+        return self
+
+    def __exit__(self, et, ev, tb):
+        if et is None:
+            return False
+        if not issubclass(et, Exception):
+            return False
+        import traceback
+        if issubclass(et, (NameError, UnboundLocalError)) and self.chk.errors:
+            self.chk.error("%s: not evaluated, it needs a result of a part that could not be analysed (%s)" % (self.label, ev))
+            return True
+        tail = " / ".join(traceback.format_exception(et, ev, tb)[-3:]).replace("\n", " ")[:600]
+        name = et.__name__
+        if name in ("AnchorError", "ExtractError", "Unknown"):
+            self.chk.error("%s: %s: %s" % (self.label, name, ev))
+        else:
+            self.chk.error("%s: analyser crashed: %s: %s | %s" % (self.label, name, ev, tail))
+        return True
